@@ -947,7 +947,27 @@ def run_case(case, ctx):
     nontrivial = demanded > 0 and g.cs * g.ls >= 2
     if g.cs * g.ls >= 50:
         cls.add("grid_50_cells_or_more")
-    return held(sig, nontrivial, sorted(cls))
+    res_ = held(sig, nontrivial, sorted(cls))
+
+    def again():
+        # the same index object, asked again after another case (another index) was built and queried
+        for q in [q for q in case["queries"] if q["q"] == "pt"][:6]:
+            p = q["p"]
+            if not g.inside(p):
+                continue
+            r = M.call(si.request, ENUCoords(p[0], p[1]))
+            if M.is_raised(r) or not _is_listlike(r):
+                return {"what": "request(coord) on an index that was queried before, asked again after ANOTHER index was "
+                                "built and queried in between, raised / returned no list", "query": q, "got": repr(r)[:300]}
+            got = set(r)
+            if not any(g.must(c, feats) <= got for c in g.candidates(p)):
+                return {"what": "request(coord) on an index that was queried before, asked again after ANOTHER index was "
+                                "built and queried in between, omits a feature that passes through the cell containing "
+                                "the point", "query": q, "got": sorted(x for x in got if isinstance(x, int)),
+                        "grid": g.describe(), "features": feats if len(feats) < 20 else len(feats)}
+        return None
+    res_["again"] = again
+    return res_
 
 
 # --------------------------------------------------------------------------
